@@ -113,7 +113,7 @@ mod verif_pdu_w {
     /// the PDU followed by unrelated octets: a reader consuming more than the PDU is seen
     fn with_trailer(b: &[u8], n: u64) -> Vec<u8> {
         let mut v = b.to_vec();
-        v.extend((0..n).map(|i| 0xA5u8.wrapping_add(i as u8 * 7)));
+        v.extend((0..n).map(|i| 0xA5u8.wrapping_add((i as u8).wrapping_mul(7))));
         v
     }
     /// header length field == number of octets written (decoded by hand: octets 4..8, network order)
